@@ -472,6 +472,54 @@ func genTable(cfg Config, emit func(string, bool, []string)) {
 				g.add("commit")
 				g.nsnap++
 			}
+			// a key inserted that ends INSIDE the compressed prefix of an inner node of the primary
+			// index: prefix watchers whose prefix ends inside that edge hold the node's channel
+			g.add("wtxn m")
+			put("wxyz1", 5)
+			put("wxyz2", 6)
+			g.add("commit")
+			g.nsnap++
+			g.add("rtxn")
+			g.nsnap++
+			{
+				h := fmt.Sprintf("s%d", g.nsnap-1)
+				for _, q := range []string{"w", "wx", "wxy", "wxyz"} {
+					g.add("prefixw %s m id %s", h, hx([]byte(q)))
+					g.add("getw %s m id %s", h, hx([]byte(q)))
+				}
+				g.add("wtxn m")
+				put([]string{"w", "wx", "wxy"}[r.IntN(3)], 7)
+				g.add("commit")
+				g.nsnap++
+			}
+			// a bucket of several objects under one prefix of the non-unique LPM index: removing one
+			// from the middle in a transaction that is then aborted (or committed) must not disturb
+			// what other snapshots see
+			g.add("wtxn m")
+			for i := 0; i < 4; i++ {
+				g.add("ins m %s %d 0 - x0a00/8 0 %d", hx([]byte{'l', byte('1' + i)}), 40+i, ord)
+				ord++
+			}
+			g.add("commit")
+			g.nsnap++
+			g.add("rtxn")
+			g.nsnap++
+			{
+				h := fmt.Sprintf("s%d", g.nsnap-1)
+				g.add("list %s m lpm x0a00/8", h)
+				g.add("wtxn m")
+				g.add("del m %s", hx([]byte{'l', byte('2' + r.IntN(2))}))
+				g.add("list %s m lpm x0a00/8", h)
+				g.add("prefix - m lpm x0000/0")
+				if r.IntN(2) == 0 {
+					g.add("abort")
+				} else {
+					g.add("commit")
+					g.nsnap++
+				}
+				g.add("list %s m lpm x0a00/8", h)
+				g.add("prefix %s m lpm x0000/0", h)
+			}
 			for sn := 0; sn < g.nsnap; sn++ {
 				g.sweep(fmt.Sprintf("s%d", sn), 3)
 			}
